@@ -14,7 +14,6 @@ import (
 	"io"
 	"math"
 	"math/big"
-	"os"
 	"strconv"
 	"strings"
 )
@@ -106,12 +105,7 @@ type c17Zig struct {
 
 var c17zig c17Zig
 
-func c17RepoDir() string {
-	if d := os.Getenv("VERIF_REPO"); d != "" {
-		return d
-	}
-	return "/repo"
-}
+func c17RepoDir() string { return repoPath() }
 
 func c17LoadZig() error {
 	fset := token.NewFileSet()
